@@ -185,7 +185,7 @@ inline Program gen_general(Tape & t, int size, const GenOpts & go) {
     p.ops.push_back(gen_source(t, 1));
     if (t.chance(1, 4)) p.ops.push_back(gen_source(t, (int) t.range(2, 255)));
     int nsig = (int) t.range(1, go.max_signals);
-    struct Plan { int id; const DType * dt; StoredDef sd; bool fsr; int64_t first, written, total; Pattern pat; int64_t anno_ts; int64_t utc_id; int64_t utc; bool defined; Op def; };
+    struct Plan { int id; const DType * dt; StoredDef sd; bool fsr; int64_t first, written, total; Pattern pat; int64_t anno_ts; int64_t utc_id; int64_t utc; bool defined; Op def; bool utc_any = false; };
     std::vector<Plan> plans;
     for (int s = 0; s < nsig; ++s) {
         Plan pl;
@@ -267,8 +267,13 @@ inline Program gen_general(Tape & t, int size, const GenOpts & go) {
             case 2: {   // UTC (FSR only)
                 if (!pl.fsr) break;
                 Op u; u.op = "utc"; u.sig = pl.id;
-                pl.utc_id += t.range(1, 500); pl.utc += t.range(1, 1LL << 32);
+                // jls_wr_utc accepts a repeated sample id (a corrected time for the same sample): one entry in six repeats the
+                // previous id with a later time.  (C12, whose statement requires strictly increasing ids, has its own generator.)
+                bool repeat = pl.utc_any && t.chance(1, 6);
+                if (!repeat) pl.utc_id += t.range(1, 500);
+                pl.utc += t.range(1, 1LL << 32);
                 u.sample_id = pl.utc_id; u.utc = pl.utc;
+                pl.utc_any = true;
                 p.ops.push_back(u);
                 break;
             }
